@@ -143,6 +143,10 @@ def readBytesOrEmpty (n : Nat) : M ρ ε Bytes := fun r =>
   | some (b, r') => .ok b r'
   | none => .ok [] r
 
+/-- unsigned subtraction as Rust does it: `a - b` underflows when `b > a` (a panic with overflow checks, a
+    wrapped value without); the model makes that a fault, so "no arithmetic overflow" is a theorem -/
+def subM (a b : Nat) : M ρ ε Nat := fun r => if b ≤ a then .ok (a - b) r else .fault .panic
+
 /-- what the parent sees of a sub-reader run: the value or the error, never the sub-reader's state -/
 def subResult {ε' : Type} (o : Out ρ ε α) (r' : ρ) : Out ρ ε' (Except ε α) :=
   match o with
@@ -185,6 +189,9 @@ theorem readBytesOrEmpty_ok {s : Bytes} {n : Nat} (h : n ≤ s.length) :
 @[simp] theorem M.ite_apply {ρ ε α : Type} (c : Prop) [Decidable c] (a b : M ρ ε α) (s : ρ) :
     (if c then a else b) s = if c then a s else b s := by
   split <;> rfl
+
+theorem subM_ok {ρ ε : Type} {a b : Nat} (h : b ≤ a) (r : ρ) : (subM a b : M ρ ε Nat) r = .ok (a - b) r := by
+  simp [subM, h]
 
 theorem readBytes_all (s : Bytes) (e : ε) : (readBytes s.length e : M Bytes ε Bytes) s = .ok s [] := by
   rw [readBytes_ok e (Nat.le_refl _)]; simp
